@@ -2663,6 +2663,13 @@ avx_rule_subusl_slow (OrcCompiler *p, void *user, OrcInstruction *insn)
     orc_avx_emit_psrld_imm (p, 1, src0, tmp);
     orc_avx_emit_psubd (p, tmp2, tmp, tmp2);
 
+    /* the halved operands lost bit 0: a > b also holds when the halves are
+     * equal and only a has bit 0 set */
+    orc_avx_emit_pandn (p, src1, src0, tmp);
+    orc_avx_emit_pslld_imm (p, 31, tmp, tmp);
+    orc_avx_emit_psrld_imm (p, 31, tmp, tmp);
+    orc_avx_emit_psubd (p, tmp2, tmp, tmp2);
+
     /* turn overflow bit into mask */
     orc_avx_emit_psrad_imm (p, 31, tmp2, tmp2);
 
@@ -2673,6 +2680,13 @@ avx_rule_subusl_slow (OrcCompiler *p, void *user, OrcInstruction *insn)
     orc_avx_sse_emit_psrld_imm (p, 1, src1, tmp2);
 
     orc_avx_sse_emit_psrld_imm (p, 1, src0, tmp);
+    orc_avx_sse_emit_psubd (p, tmp2, tmp, tmp2);
+
+    /* the halved operands lost bit 0: a > b also holds when the halves are
+     * equal and only a has bit 0 set */
+    orc_avx_sse_emit_pandn (p, src1, src0, tmp);
+    orc_avx_sse_emit_pslld_imm (p, 31, tmp, tmp);
+    orc_avx_sse_emit_psrld_imm (p, 31, tmp, tmp);
     orc_avx_sse_emit_psubd (p, tmp2, tmp, tmp2);
 
     /* turn overflow bit into mask */
